@@ -284,3 +284,51 @@ def ss_envs(e, limit=200):
                 this[k] = v
         envs.append(E.Env(this, {'A': al}))
     return envs
+
+
+# ------------------------------------------------------------------------------------------
+# free variables / references of an hpl AST (own walk over public attributes)
+# ------------------------------------------------------------------------------------------
+def hpl_free_vars(h, bound=frozenset()):
+    cls = type(h).__name__
+    if cls == 'HplVarReference':
+        return set() if h.name in bound else {h.name}
+    if cls == 'HplQuantifier':
+        return hpl_free_vars(h.domain, bound) | hpl_free_vars(h.condition, bound | {h.variable})
+    out = set()
+    for k in hpl_kids(h):
+        out |= hpl_free_vars(k, bound)
+    return out
+
+
+def hpl_kids(h):
+    cls = type(h).__name__
+    if cls == 'HplFieldAccess':
+        return (h.message,)
+    if cls == 'HplArrayAccess':
+        return (h.array, h.index)
+    if cls == 'HplSet':
+        return tuple(h.values)
+    if cls == 'HplRange':
+        return (h.min_value, h.max_value)
+    if cls == 'HplUnaryOperator':
+        return (h.operand,)
+    if cls == 'HplBinaryOperator':
+        return (h.operand1, h.operand2)
+    if cls == 'HplQuantifier':
+        return (h.domain, h.condition)
+    if cls == 'HplFunctionCall':
+        return tuple(h.arguments)
+    return ()
+
+
+def hpl_all_var_names(h):
+    return {x.name for x in E._walk(h) if type(x).__name__ == 'HplVarReference'}
+
+
+def hpl_bound_names(h):
+    return {x.variable for x in E._walk(h) if type(x).__name__ == 'HplQuantifier'}
+
+
+def hpl_has_this(h):
+    return any(type(x).__name__ == 'HplThisMessage' for x in E._walk(h))
